@@ -6,7 +6,8 @@ from props import common, sides, mergetab
 LEVEL = ("Mechanism level (order pins): the iteration order previous -> current -> new in Stream::iter and slice_iter "
          "(with cursor fields paired to their matrices), compactify numbering generations in the same order with start "
          "indices 0 / |prev| / |prev|+|current|, add_value dispatching each Generation variant to its own matrix, and the "
-         "source->generation mapping tables. Behaviour across runs is not decided.")
+         "source->generation mapping tables. Behaviour across runs is not decided."
+         " Added: a stream value / ap present in both data keeps the previous operand (the local generation); R-SIDES.")
 
 ORDER = ["previous_values", "current_values", "new_values"]
 
